@@ -242,6 +242,9 @@ Cancel == /\ cf.mode = "cancel" /\ point = "" /\ pc \in Labels /\ reply = 0
 (* block was absent or corrupt), it writes its own temp file and renames it into place, and is acknowledged.     *)
 RivalPut == /\ cf.rival # "" /\ ~rdone /\ pc = cf.rival /\ att = 1 /\ point \in {"", "WriteBlock.Write#1", "WriteBlock.Write#2", "WriteBlock.Write#3"}
             /\ ~cancelled /\ (cf.mode = "werr" => point # "" /\ point # pc)
+            \* at Rename this upload holds the flock of the file it replaces: a rival could not get past its own
+            \* lockfile before this one has renamed, so "the rival runs to its end here" is not a behaviour
+            /\ ~(pc = "WriteBlock.Rename" /\ ent # "absent" /\ cf.pre # "dir")
             /\ rdone' = TRUE
             /\ ent' = "rival"
             /\ C!RivalAckEff
